@@ -964,6 +964,136 @@ def equiv_cases(chk, quick):
     chk.sample({"lang": cases[2][2], "expected": cases[2][3]})
 
 
+# ------------------------------------------------------------------ comparators that fail on a PAIR of values
+def _eval_with_out(exprs, chunk=40):
+    """like eval_exprs, but with the print permission and the captured output: returns (dump, set of indices whose
+    comparator `display`ed its HIT tag).  Every expression carries its own index in the tag."""
+    res, hits = [None] * len(exprs), set()
+    batches = [list(range(i, min(i + chunk, len(exprs)))) for i in range(0, len(exprs), chunk)]
+
+    def mk(idx):
+        return {"op": "run", "src": "".join(f"let r{j} = {exprs[j]};\n" for j in idx), "get": [f"r{j}" for j in idx],
+                "limits": {"allow": ["print"]}}
+
+    def take(idx, r):
+        f = _resp_fail_local(r)
+        if f is not None:
+            return False
+        for j in idx:
+            res[j] = r["vals"][f"r{j}"]
+        for line in r.get("out", "").splitlines():
+            if line.startswith("HIT"):
+                hits.add(int(line[3:]))
+        return True
+
+    singles = []
+    for b, r in zip(batches, run_harness([mk(b) for b in batches], per_req_timeout=60.0)):
+        if not take(b, r):
+            singles += b
+    for j, r in zip(singles, run_harness([mk([j]) for j in singles], per_req_timeout=60.0)):
+        if not take([j], r):
+            res[j] = _resp_fail_local(r)
+    return res, hits
+
+
+def pairfail_cases(chk, quick):
+    """a user comparator that answers an error value for one unordered PAIR {a, b} of the array's values (and the
+    plain order otherwise), through every sorting / selecting library function.  Oracles: (1) the model — the
+    `sorted` pre-pass + try_sort, quickselect, the heap — predicts exactly whether that pair is ever compared;
+    (2) model-free: the comparator `display`s a tag when it is asked about the pair; if it was asked, the result
+    must be that error, if it was not, the result must be the normal one."""
+    rng = chk.rng
+    arrays = [[1, 5, 3], [1, 2, 3, 4], [4, 3, 2, 1], [1, 2, 3, 5, 4], [2, 1, 3, 4, 5], [1, 3, 5, 7, 2], [3, 3, 1, 2]]
+    for _ in range(3 if quick else 40):
+        n = rng.choice([2, 3, 5, 6, 8])
+        base = sorted(rng.sample(range(20), n))
+        style = rng.choice(["sorted", "nearly", "prefix", "reversed", "random"])
+        if style == "nearly" and n >= 2:
+            i = rng.randrange(n - 1); base[i], base[i + 1] = base[i + 1], base[i]
+        elif style == "prefix":
+            base.append(rng.choice(base[:-1]) - 0 if n < 2 else base.pop(rng.randrange(n - 1)))
+        elif style == "reversed":
+            base.reverse()
+        elif style == "random":
+            rng.shuffle(base)
+        arrays.append(base)
+    exprs, meta = [], []
+
+    def add(fn, xs, a, b, k, tmpl, normal, mline):
+        idx = len(exprs)
+        cond = f"(x == {a} && y == {b}) || (x == {b} && y == {a})"
+        f = f"(x: int, y: int)->{{if({cond}, if(display({idx}, 'HIT') == {idx}, error('pair'), error('pair')), cmp(x, y))}}"
+        lt = f"(x: int, y: int)->{{if({cond}, if(display({idx}, 'HIT') == {idx}, error('pair'), error('pair')), x < y)}}"
+        exprs.append(tmpl.format(L=xs_lit(xs), f=f, lt=lt, k=k))
+        meta.append((fn, xs, a, b, k, normal, mline))
+
+    for xs in arrays:
+        n = len(xs)
+        vals = sorted(set(xs))
+        pairs = [(a, b) for i, a in enumerate(vals) for b in vals[i + 1:]]
+        if quick and len(pairs) > 10:
+            pairs = rng.sample(pairs, 10)
+        for a, b in pairs + [(-7, -8)]:   # the last pair never occurs: the comparator never fails
+            k = rng.randrange(n)
+            m = lambda fn, kk=0: f"ord pairfail {fn} {kk} {a} {b} {show(xs)}"
+            add("sort", xs, a, b, 0, "{L}.sort({f}).to_array()", dump_ints(sorted(xs)), m("sort"))
+            add("sort_reverse", xs, a, b, 0, "{L}.sort_reverse({f}).to_array()", dump_ints(sorted(xs, reverse=True)), m("sort_reverse"))
+            add("nth_smallest", xs, a, b, k, "{L}.nth_smallest({k}, {f})", f"(int S {sorted(xs)[k]})", m("nth_smallest", k))
+            add("nth_largest", xs, a, b, k, "{L}.nth_largest({k}, {f})", f"(int S {sorted(xs, reverse=True)[k]})", m("nth_largest", k))
+            add("median", xs, a, b, 0, "{L}.median({f})", f"(int S {sorted(xs)[n // 2]})", m("median"))
+            add("n_smallest", xs, a, b, k, "{L}.n_smallest({k}, {f}).to_array()", dump_ints(sorted(xs)[:k]), m("n_smallest", k))
+            add("n_largest", xs, a, b, k, "{L}.n_largest({k}, {f}).to_array()", dump_ints(sorted(xs, reverse=True)[:k]), m("n_largest", k))
+            add("max-lt", xs, a, b, 0, "max({L}, {lt})", f"(int S {max(xs)})", None)
+            add("min-lt", xs, a, b, 0, "min({L}, {lt})", f"(int S {min(xs)})", None)
+            add("rank_eq", xs, a, b, k, "{L}.rank_eq(" + str(xs[k]) + ", {f})", None, None)
+            add("rank_avg", xs, a, b, k, "{L}.rank_avg(" + str(xs[k]) + ", {f})", None, None)
+    dumps, hits = _eval_with_out(exprs)
+    mi = [i for i, mm in enumerate(meta) if mm[6]]
+    mres = dict(zip(mi, run_model([meta[i][6] for i in mi])))
+    for i, ((fn, xs, a, b, k, normal, mline), expr, d) in enumerate(zip(meta, exprs, dumps)):
+        chk.evaluations += 1
+        chk.count("pairfail:" + fn)
+        is_pair_err = d.startswith("(error ") and "pair" in d
+        asked = i in hits
+        replay = {"src": f"let r = {expr};", "get": ["r"], "limits": {"allow": ["print"]}, "got": d}
+        chk.count("pairfail:asked" if asked else "pairfail:not-asked")
+        if d.startswith("panic") or d.startswith("viol") or d.startswith("abort") or d == "hang":
+            chk.violation(f"lang:pairfail:{fn}:panic", f"{expr[:240]} → {d[:120]}", replay)
+            continue
+        if asked and not is_pair_err:
+            chk.violation(f"lang:pairfail:{fn}:failure-swallowed",
+                          f"the comparator was asked about the pair ({a}, {b}) and answered an error value, but {fn} of {xs} returned {d[:120]} instead of that error",
+                          replay)
+            continue
+        if not asked and is_pair_err:
+            chk.violation(f"lang:pairfail:{fn}:spurious-failure", f"{fn} of {xs} answers the pair error although the comparator was never asked about ({a}, {b})", replay)
+            continue
+        if not asked and normal is not None and d != normal:
+            chk.violation(f"lang:pairfail:{fn}:wrong", f"{fn} of {xs} (comparator never asked about the failing pair) = {d[:120]}; expected {normal[:120]}", replay)
+            continue
+        chk.nontrivial.add(("pairfail", fn, tuple(xs), a, b, k))
+        if i in mres:
+            want = "fail" if is_pair_err else ("ok " + (d[7:-1] if d.startswith("(int S ") else show([int(t.rstrip(")")) for t in d.split() if t.rstrip(")").lstrip("-").isdigit()])))
+            if mres[i] != want:
+                chk.violation(f"tie:pairfail:{fn}", f"model and implementation disagree on whether / how {fn} of {xs} meets the failing pair ({a}, {b}): model={mres[i][:100]} impl={d[:100]}",
+                              {"src": replay["src"], "model": mline}, no_input=True)
+    chk.sample({"lang": exprs[0][:300], "law": "comparator asked about the pair <=> the result is that error"})
+    # the violation variant: a comparator that exhausts the user-call limit midway stays a violation
+    vreqs = []
+    for xs in ([1, 2, 3, 5, 4], [4, 3, 2, 1, 6, 5], [1, 2, 3, 4, 5, 6]):
+        for tmpl in ("{L}.sort({f}).to_array()", "{L}.sort_reverse({f}).to_array()", "{L}.nth_smallest(2, {f})", "{L}.median({f})",
+                     "{L}.n_largest(2, {f}).to_array()", "{L}.n_smallest(2, {f}).to_array()", "{L}.rank_eq(3, {f})"):
+            for lim in (1, 2, 3):
+                src = "let r = " + tmpl.format(L=xs_lit(xs), f="(x: int, y: int)->{cmp(x, y)}") + ";"
+                vreqs.append({"op": "run", "src": src, "get": ["r"], "limits": {"ud_calls": lim}})
+    for req, r in zip(vreqs, run_harness(vreqs)):
+        chk.evaluations += 1
+        chk.count("pairfail:violation-variant")
+        if not (isinstance(r.get("inst"), dict) and r["inst"].get("viol") == "MaximumUDCall"):
+            chk.violation("lang:pairfail:violation-swallowed", f"a comparator exhausting the user-call limit ({req['limits']['ud_calls']}) must end in the MaximumUDCall violation: "
+                          f"{req['src'][:200]} → {json.dumps(r)[:200]}", req)
+
+
 def _resp_fail_local(r):
     if "panic" in r:
         return "panic " + r["panic"]
@@ -1053,6 +1183,7 @@ def run(chk):
     accounting_cases(chk, quick)
     heap_cases(chk, quick)
     select_cases(chk, quick)
+    pairfail_cases(chk, quick)
     derive_cases(chk, quick)
     user_cmp_cases(chk, quick)
     equiv_cases(chk, quick)
